@@ -184,7 +184,10 @@ class World:
 def run_history(steps):
     w = World()
     for s in steps:
-        r = w.step(s)
+        try:
+            r = w.step(s)
+        except Exception as e:
+            r = ("step-raised:" + type(e).__name__, "step %r raised %s: %s" % (list(s), type(e).__name__, str(e)[:300]))
         if r:
             return r
         if s[0] != "probe":
@@ -300,7 +303,10 @@ def make_machine(acc):
 
         def do(self, s):
             self.steps.append(s)
-            r = self.w.step(s)
+            try:
+                r = self.w.step(s)
+            except Exception as e:      # a step of the history itself must never raise
+                r = ("step-raised:" + type(e).__name__, "step %r raised %s: %s" % (list(s), type(e).__name__, str(e)[:300]))
             if r:
                 acc.fail(r[0], {"steps": [list(x) for x in self.steps]}, r[1])
                 raise AssertionError(r[1])
